@@ -59,8 +59,12 @@ Value& MemberMETHODExpression::value(Context& ctx) const
   if (val.type().minor() != _method_type_id)
     throw RuntimeError(EXC_RT_BAD_COMPLEX_S, plug.interface.name);
 
+  /* the module evaluates the arguments while the method runs: they may drop
+   * the last reference to the object (an element removed from its table).
+   * This reference keeps it alive until the method has returned. */
+  Complex self(*val.complex());
   Value * ret = plug.instance->executeMethod(
-          *val.complex(), _method->id, ctx, _args);
+          self, _method->id, ctx, _args);
   if (ret == nullptr)
     throw RuntimeError(EXC_RT_MEMB_FAILED_S, _method->name);
   if (ret->lvalue())
@@ -68,9 +72,10 @@ Value& MemberMETHODExpression::value(Context& ctx) const
     return *ret;
   }
   else if (ret->type() == Type::COMPLEX && !ret->isNull() &&
-          ret->complex()->operator==(*val.complex()))
+          ret->complex()->operator==(self) && _exp->symbolId() == nid)
   {
-    /* do not allocate for a copy */
+    /* do not allocate for a copy (the receiver is a temporary, it is
+     * still there) */
     delete ret;
     return val;
   }
